@@ -36,6 +36,7 @@
 
 #include <sys/types.h>
 #include <sys/socket.h>
+#include <sys/time.h>
 #include <sys/un.h>
 
 #include <netinet/in.h>
@@ -541,8 +542,13 @@ do_serialize(const uint8_t * in, size_t len)
 	uint8_t * buf;
 	size_t buflen;
 
-	if (sas == NULL || sas[0] == NULL)
-		vh_die("G: cannot resolve %s", s);
+	if (sas == NULL || sas[0] == NULL) {
+		/* the runner falls back to records it builds itself */
+		rp("null");
+		sock_addr_freelist(sas);
+		free(fs);
+		return;
+	}
 	if (sock_addr_serialize(sas[0], &buf, &buflen))
 		vh_die("G: serialize failed");
 	if (buflen != 2 * sizeof(int) + sizeof(socklen_t) + sas[0]->namelen)
@@ -550,6 +556,7 @@ do_serialize(const uint8_t * in, size_t len)
 	else {
 		size_t i;
 
+		rp("rec ");
 		for (i = 0; i < buflen; i++)
 			rp("%02x", buf[i]);
 	}
@@ -946,22 +953,73 @@ run_line(struct vh_line * L)
 }
 
 #ifndef C15_NO_MAIN
+/*
+ * Watchdog: a single input that burns HANG_CPU_S seconds of CPU time (user +
+ * system, so machine load does not matter) is abandoned with "R HANG"; the
+ * parsers keep no state between inputs, so the driver carries on with the
+ * next line.  After three hangs the limit drops to 0.5 s and after MAX_HANGS
+ * the remaining lines are answered "R SKIP" unexecuted, to bound the cost of
+ * a thoroughly broken parser.  alarm() is the wall-clock backstop.
+ */
+#define HANG_CPU_S 5
+#define MAX_HANGS 6
+static sigjmp_buf hang_jmp;
+static int nhangs;
+
+static void
+on_prof(int sig)
+{
+
+	(void)sig;
+	siglongjmp(hang_jmp, 1);
+}
+
+static void
+cpu_timer(long usec)
+{
+	struct itimerval it;
+
+	memset(&it, 0, sizeof(it));
+	it.it_value.tv_sec = usec / 1000000;
+	it.it_value.tv_usec = usec % 1000000;
+	if (setitimer(ITIMER_PROF, &it, NULL))
+		vh_die("setitimer");
+}
+
 int
 main(int argc, char ** argv)
 {
 	struct vh_line L = {0};
+	struct sigaction sa;
 
 	if (argc > 1)
 		set_scratch(argv[1]);
+	memset(&sa, 0, sizeof(sa));
+	sa.sa_handler = on_prof;
+	sigemptyset(&sa.sa_mask);
+	if (sigaction(SIGPROF, &sa, NULL))
+		vh_die("sigaction");
 	vh_stdout_linebuf();
 	while (vh_readline(&L, stdin)) {
 		if (L.ntok == 0)
 			continue;
-		/* a single input must never take this long: SIGALRM kills us */
-		alarm(20);
-		run_line(&L);
+		if (nhangs >= MAX_HANGS) {
+			/* the run has failed; do not burn more CPU */
+			printf("R SKIP\n");
+			continue;
+		}
+		alarm(120);
+		if (sigsetjmp(hang_jmp, 1) == 0) {
+			cpu_timer(nhangs < 3 ? HANG_CPU_S * 1000000L : 500000L);
+			run_line(&L);
+			cpu_timer(0);
+			printf("R %s\n", res);
+		} else {
+			nhangs++;
+			printf("R HANG no result after %s s of CPU time\n",
+			    nhangs <= 3 ? "5" : "0.5");
+		}
 		alarm(0);
-		printf("R %s\n", res);
 	}
 	if (scratch[0])
 		(void)unlink(scratch);
